@@ -115,6 +115,7 @@ static void write_dns(int fd, struct query *q, const char *data, int datalen, ch
 static void handle_full_packet(int tun_fd, struct dnsfd *dns_fds, int userid);
 #ifdef IODINE_VERIF
 void verif_hook_write_dns(struct query *q, const char *data, int datalen, char downenc);
+void verif_hook_sweep(void);
 #endif
 
 static int
@@ -1851,6 +1852,10 @@ tunnel(int tun_fd, struct dnsfd *dns_fds, int bind_fd, int max_idle_time)
 			}
 		}
 
+#ifdef IODINE_VERIF
+		/* verification hook: what follows was not caused by the datagram just handled */
+		verif_hook_sweep();
+#endif
 		/* Send realsoon's if tun or dns didn't already */
 		for (userid = 0; userid < created_users; userid++)
 			if (users[userid].active && !users[userid].disabled &&
